@@ -54,9 +54,9 @@ var (
 	errTimeout   = errors.New("prune engine: timeout waiting for the pruner service")
 	// a failure of the REAL code while the initial world is prepared: an observation, not a harness problem
 	errOnRealCode = errors.New("real code failed on a valid chain")
-	bigBatch     = 96 * 1024 * 1024
-	minAge       = 50 * time.Hour
-	runStart     = time.Now()
+	bigBatch      = 96 * 1024 * 1024
+	minAge        = 50 * time.Hour
+	runStart      = time.Now()
 )
 
 type bk struct{ N, V int }
